@@ -1484,6 +1484,14 @@ _C06_GUARDS = [
      'the file is removed once'),
     (_NPY + '.__getstate__', 'self.flush()', [('self.fs.closed', False)],
      'pickling flushes an open file (and does not touch a closed one)'),
+    (_NPY + '.__setstate__', 'self.__init__(_.pop(_))', [('os.path.exists(_.pop(_))', True)],
+     'unpickling reopens the recorded file when it exists (a missing path would be created empty)'),
+    (_NPY + '.__setstate__', 'self.__init__(os.path.basename(_))',
+     [('os.path.exists(_.pop(_))', False), ('os.path.exists(os.path.basename(_))', True)],
+     'the file name alone is tried only when the recorded path is gone, and only if it exists'),
+    (_NPY + '.__setstate__', 'raise:0',
+     [('os.path.exists(_.pop(_))', False), ('os.path.exists(os.path.basename(_))', False)],
+     'a store whose file is gone is refused instead of being re-created empty'),
 ]
 
 
